@@ -309,6 +309,27 @@ impl Check for BookModel {
     type Case = BookCase;
     const NAME: &'static str = "book_model";
 
+    fn normalise(mut case: BookCase) -> BookCase {
+        for e in &mut case.events {
+            e.time_ms = e.time_ms.map(|t| T0_MS + t.rem_euclid(10_000_000));
+            if e.snapshot {
+                // well-formed venue snapshot: unique prices, positive amounts
+                for side in [&mut e.bids, &mut e.asks] {
+                    let mut seen: Vec<Decimal> = Vec::new();
+                    side.retain(|(p, a)| {
+                        let keep = !a.is_zero() && !seen.contains(p);
+                        if keep {
+                            seen.push(*p);
+                        }
+                        keep
+                    });
+                }
+            }
+        }
+        case
+    }
+
+
     fn strategy(tier: Tier) -> BoxedStrategy<BookCase> {
         let max = match tier {
             Tier::Quick => 40,
